@@ -12,10 +12,15 @@ namespace Mesa.Layers
 def Op.safe (impl : Impl) : Op → Bool
   | .layerSet l _ _ => impl != .new || l != 0
   | .setCells l _ _ => impl != .new || l != 0
+  | .setFrom l _ _ => impl != .new || l != 0
   | .modifyCells l _ _ => impl != .new || l != 0
+  | .modifyT l _ _ _ => impl != .new || l != 0
+  | .modifyU l _ _ _ => impl != .new || l != 0
   | .modifyCell l _ _ => impl != .new || l != 0
+  | .modifyCellU l _ _ _ => impl != .new || l != 0
   | .grab _ l => impl != .new || l != 0
   | .cellSet n _ _ => impl != .new || n != "empty"
+  | .cellSet2 l _ _ => impl != .new || l != 0
   | .detach n => impl != .new || n != "empty"
   | _ => true
 
@@ -367,11 +372,53 @@ theorem EmpInv_move {s : State} (h : EmpInv s) (a : Nat) (c : Coord) : EmpInv (m
         intro h2 _
         exact this h2
 
+theorem EmpInv_setCells {s : State} (hw : WF s) (h : EmpInv s) (l : Nat) (v : Int)
+    (cond : Option (Int → Bool)) (hs : s.impl = .new → l ≠ 0) : EmpInv (setCells s l v cond).1 := by
+  unfold setCells
+  split
+  · exact h
+  · next L hl =>
+    obtain ⟨hlt, rfl⟩ := layer?_some hl
+    exact h.transfer rfl (fun _ => rfl) (fun _ => rfl) (Nat.le_refl _) h.handles rfl
+      (upd_heap_zero _ _ _ (data_ne_zero hw h hlt hs))
+
+theorem EmpInv_modifyCellsT {s : State} (hw : WF s) (h : EmpInv s) (l : Nat) (f : Option (Int → Int))
+    (cond : Option (Int → Bool)) (rd : DType) (hs : s.impl = .new → l ≠ 0) :
+    EmpInv (modifyCellsT s l f cond rd).1 := by
+  have hnp := hw.next_pos
+  unfold modifyCellsT
+  split
+  · exact h
+  · next L hl =>
+    obtain ⟨hlt, rfl⟩ := layer?_some hl
+    split
+    · exact h
+    · refine h.transfer rfl (fun _ => rfl) ?_ (Nat.le_refl _) h.handles rfl
+        (upd_heap_zero _ _ _ (by omega))
+      intro hi
+      exact upd_other _ _ _ _ (fun e => hs hi e.symm)
+
+theorem EmpInv_modifyCell {s : State} (hw : WF s) (h : EmpInv s) (l : Nat) (c : Coord) (f : Option (Int → Int))
+    (hs : s.impl = .new → l ≠ 0) : EmpInv (modifyCell s l c f).1 := by
+  unfold modifyCell
+  split
+  · exact h
+  · split
+    · exact h
+    · next L hl =>
+      obtain ⟨hlt, rfl⟩ := layer?_some hl
+      split
+      · exact h
+      · split
+        · exact h
+        · exact h.transfer rfl (fun _ => rfl) (fun _ => rfl) (Nat.le_refl _) h.handles rfl
+            (upd_heap_zero _ _ _ (data_ne_zero hw h hlt hs))
+
 theorem EmpInv_step {s : State} (hw : WF s) (h : EmpInv s) (op : Op) (hs : op.safe s.impl = true) :
     EmpInv (step s op).1 := by
   have hnp := hw.next_pos
   cases op with
-  | create n d =>
+  | create n dt d =>
     simp only [step]
     unfold create
     split
@@ -382,7 +429,7 @@ theorem EmpInv_step {s : State} (hw : WF s) (h : EmpInv s) (op : Op) (hs : op.sa
         rw [List.lookup_append, (h.named hi).1]; rfl
       · intro hi
         exact upd_other _ _ _ _ (by have := (h.named hi).2.2; omega)
-  | newLayer n dims d =>
+  | newLayer n dims dt d =>
     simp only [step]
     unfold newLayer
     split
@@ -453,17 +500,62 @@ theorem EmpInv_step {s : State} (hw : WF s) (h : EmpInv s) (op : Op) (hs : op.sa
           exact h.transfer rfl (fun _ => rfl) (fun _ => rfl) (Nat.le_refl _) h.handles rfl
             (upd_heap_zero _ _ _ (data_ne_zero hw h (hw.att_lt n lid hn) (fun e => absurd e hi')))
   | cellGet n c => exact h
-  | setCells l v cond =>
+  | cellSet2 l c w =>
     simp only [step]
-    unfold setCells
+    unfold cellSet2
+    split
+    · exact h
+    · unfold layerSet
+      split
+      · exact h
+      · next L hl =>
+        obtain ⟨hlt, rfl⟩ := layer?_some hl
+        split
+        · exact h
+        · refine h.transfer rfl (fun _ => rfl) (fun _ => rfl) (Nat.le_refl _) h.handles rfl
+            (upd_heap_zero _ _ _ (data_ne_zero hw h hlt ?_))
+          intro hi
+          simpa [Op.safe, hi] using hs
+  | cellGet2 l c => exact h
+  | setCells l w cond =>
+    have hl0 : s.impl = .new → l ≠ 0 := fun hi => by simpa [Op.safe, hi] using hs
+    cases w with
+    | raw v => exact EmpInv_setCells hw h l v cond hl0
+    | py x =>
+      simp only [step]
+      unfold setCellsV
+      split
+      · exact h
+      · split
+        · exact h
+        · exact EmpInv_setCells hw h l _ cond hl0
+  | setFrom l hd cond =>
+    simp only [step]
+    unfold setFrom
     split
     · exact h
     · next L hl =>
       obtain ⟨hlt, rfl⟩ := layer?_some hl
-      refine h.transfer rfl (fun _ => rfl) (fun _ => rfl) (Nat.le_refl _) h.handles rfl
-        (upd_heap_zero _ _ _ (data_ne_zero hw h hlt ?_))
-      intro hi
-      simpa [Op.safe, hi] using hs
+      split
+      · exact h
+      · split
+        · exact h
+        · split
+          · exact h
+          · refine h.transfer rfl (fun _ => rfl) (fun _ => rfl) (Nat.le_refl _) h.handles rfl
+              (upd_heap_zero _ _ _ (data_ne_zero hw h hlt ?_))
+            intro hi
+            simpa [Op.safe, hi] using hs
+  | modifyT l f cond rd =>
+    exact EmpInv_modifyCellsT hw h l f cond rd (fun hi => by simpa [Op.safe, hi] using hs)
+  | modifyU l op x cond =>
+    simp only [step]
+    unfold modifyU
+    split
+    · exact h
+    · split
+      · exact h
+      · exact EmpInv_modifyCellsT hw h l _ cond _ (fun hi => by simpa [Op.safe, hi] using hs)
   | modifyCells l f cond =>
     simp only [step]
     unfold modifyCells
@@ -495,6 +587,30 @@ theorem EmpInv_step {s : State} (hw : WF s) (h : EmpInv s) (op : Op) (hs : op.sa
               (upd_heap_zero _ _ _ (data_ne_zero hw h hlt ?_))
             intro hi
             simpa [Op.safe, hi] using hs
+  | modifyCellU l c op x =>
+    simp only [step]
+    unfold modifyCellU
+    split
+    · exact h
+    · split
+      · exact h
+      · split
+        · exact h
+        · split
+          · exact h
+          · exact EmpInv_modifyCell hw h l c _ (fun hi => by simpa [Op.safe, hi] using hs)
+  | fromData n hd =>
+    simp only [step]
+    unfold fromData
+    split
+    · exact h
+    · split
+      · exact h
+      · split
+        · exact h
+        · refine h.transfer rfl (fun _ => rfl) ?_ (Nat.le_succ _) h.handles rfl (upd_heap_zero _ _ _ (by omega))
+          intro hi
+          exact upd_other _ _ _ _ (by have := (h.named hi).2.2; omega)
   | grab hd l =>
     simp only [step]
     unfold grab
@@ -526,12 +642,31 @@ theorem EmpInv_step {s : State} (hw : WF s) (h : EmpInv s) (op : Op) (hs : op.sa
   | hdump hd => exact h
   | dump l => exact h
   | dumpName n => exact h
+  | dtype l => exact h
   | layerSelect l p => exact h
   | aggregate l k => exact h
   | place a c => exact EmpInv_place h a c
   | move a c => exact EmpInv_move h a c
   | remove a => exact EmpInv_remove h a
   | empties => exact h
+  | gridSet n =>
+    simp only [step]
+    unfold gridSet
+    split
+    · exact h
+    · split
+      · exact h
+      · exact h.transfer rfl (fun _ => rfl) (fun _ => rfl) (Nat.le_refl _) h.handles rfl rfl
+  | nbhdMask k geom torus c ic r =>
+    simp only [step]
+    unfold nbhdMask
+    split
+    · exact h
+    · split
+      · exact h
+      · split
+        · exact h
+        · exact h.transfer rfl (fun _ => rfl) (fun _ => rfl) (Nat.le_refl _) h.handles rfl rfl
   | select ms oe conds exts save =>
     simp only [step]
     split
@@ -544,8 +679,8 @@ theorem EmpInv_step {s : State} (hw : WF s) (h : EmpInv s) (op : Op) (hs : op.sa
 
 theorem step_impl (s : State) (op : Op) : (step s op).1.impl = s.impl := by
   cases op with
-  | create n d => simp only [step]; unfold create; split <;> rfl
-  | newLayer n dims d => simp only [step]; unfold newLayer; split <;> rfl
+  | create n dt d => simp only [step]; unfold create; split <;> rfl
+  | newLayer n dims dt d => simp only [step]; unfold newLayer; split <;> rfl
   | attach l =>
     simp only [step]; unfold attach
     split
@@ -556,25 +691,57 @@ theorem step_impl (s : State) (op : Op) : (step s op).1.impl = s.impl := by
   | layerGet l c => rfl
   | cellSet n c v => exact (sameShape_cellSet ..).impl
   | cellGet n c => rfl
-  | setCells l v cond => exact (sameShape_setCells ..).impl
+  | cellSet2 l c w => exact (sameShape_cellSet2 ..).impl
+  | cellGet2 l c => rfl
+  | setCells l w cond =>
+    cases w with
+    | raw v => exact (sameShape_setCells ..).impl
+    | py x => exact (sameShape_setCellsV ..).impl
+  | setFrom l hd cond => exact (sameShape_setFrom ..).impl
   | modifyCells l f cond =>
     simp only [step]; unfold modifyCells
     split
     · rfl
     · split <;> rfl
+  | modifyT l f cond rd =>
+    simp only [step]; unfold modifyCellsT
+    split
+    · rfl
+    · split <;> rfl
+  | modifyU l op x cond =>
+    simp only [step]; unfold modifyU
+    split
+    · rfl
+    · split
+      · rfl
+      · unfold modifyCellsT
+        split
+        · rfl
+        · split <;> rfl
   | modifyCell l c f => exact (sameShape_modifyCell ..).impl
+  | modifyCellU l c op x => exact (sameShape_modifyCellU ..).impl
+  | fromData n hd =>
+    simp only [step]; unfold fromData
+    split
+    · rfl
+    · split
+      · rfl
+      · split <;> rfl
   | grab hd l => simp only [step]; unfold grab; split <;> rfl
   | hget hd c => rfl
   | hset hd c v => exact (sameShape_hset ..).impl
   | hdump hd => rfl
   | dump l => rfl
   | dumpName n => rfl
+  | dtype l => rfl
   | layerSelect l p => rfl
   | aggregate l k => rfl
   | place a c => exact (sameShape_place ..).impl
   | move a c => exact (sameShape_move ..).impl
   | remove a => exact (sameShape_remove ..).impl
   | empties => rfl
+  | nbhdMask k geom torus c ic r => exact (sameShape_nbhdMask ..).impl
+  | gridSet n => exact (sameShape_gridSet ..).impl
   | select ms oe conds exts save =>
     simp only [step]
     split
